@@ -24,6 +24,24 @@ type Case struct {
 	Default int    `json:"default_format"`
 	Limit   int    `json:"max_input_length"`
 	Path    string `json:"path"`
+	// Hooks: before the case is judged, custom package-level Formatter and Parser functions are installed, used and removed.
+	Hooks bool `json:"after_custom_hooks,omitempty"`
+}
+
+// pokeWithCustomHooks: the package-level Formatter and Parser are settings; what was produced under one setting must not be
+// handed out under the next.
+func pokeWithCustomHooks(n roman.Number) {
+	oldF, oldP := roman.Formatter, roman.Parser
+	defer func() { roman.Formatter, roman.Parser = oldF, oldP }()
+	roman.Formatter = func(buf []byte, n roman.Number, f roman.Format) ([]byte, error) {
+		return append(buf, fmt.Sprintf("custom<%d>", uint64(n))...), nil
+	}
+	roman.Parser = func(input []byte, r roman.Rule) (roman.Number, error) { return 666, nil }
+	_ = n.String()
+	_ = fmt.Sprintf("%s %v %R %r %L %l", n, n, n, n, n, n)
+	_, _ = n.MarshalText()
+	var u roman.Number
+	_ = u.UnmarshalText([]byte(ref.RomanNumeral(uint64(n), 0)))
 }
 
 var flagTable = []struct {
@@ -53,6 +71,11 @@ func refFlags(sub int) (f int) {
 	return
 }
 
+type (
+	namedS string
+	namedB []byte
+)
+
 const (
 	subLong  = 0x3f
 	subLower = 0x40
@@ -64,12 +87,35 @@ func judge(c Case, w *vkit.W) {
 			w.Fail(c, "panic", vkit.PanicDetail(p))
 		}
 	}()
+	if c.Hooks {
+		pokeWithCustomHooks(roman.Number(c.N))
+	}
 	fits := func(s string) bool { return c.Limit == 0 || len(s) <= c.Limit }
 	roundTrip := func(path, text string, flagsSub int) {
 		n := roman.Number(c.N)
+		if len(text) > 1<<20 { // megabyte numerals: the detail texts name the number instead of quoting the numeral
+			path = fmt.Sprintf("%s [numeral of %d, %d bytes]", path, c.N, len(text))
+		}
 		if fits(text) {
 			if err := roman.Valid(text, 0); err != nil {
 				w.Fail(c, "valid-rejects-formatted-numeral", fmt.Sprintf("%s: Valid(%q) = %v (n=%d flags=%#x)", path, text, err, c.N, flagsSub))
+			}
+			if (c.N%16 == 5 || c.N > 129000) && c.N < 1000000 { // the other instantiations of the validity check and of the parser (constraint: ~string | ~[]byte)
+				if err := roman.Valid(w.Scratch(text), 0); err != nil {
+					w.Fail(c, "valid-rejects-formatted-numeral", fmt.Sprintf("%s: Valid[[]byte](%q) = %v (n=%d flags=%#x)", path, text, err, c.N, flagsSub))
+				}
+				if err := roman.Valid(namedS(text), 0); err != nil {
+					w.Fail(c, "valid-rejects-formatted-numeral", fmt.Sprintf("%s: Valid[named string](%q) = %v (n=%d flags=%#x)", path, text, err, c.N, flagsSub))
+				}
+				if err := roman.Valid(namedB(w.Scratch(text)), 0); err != nil {
+					w.Fail(c, "valid-rejects-formatted-numeral", fmt.Sprintf("%s: Valid[named []byte](%q) = %v (n=%d flags=%#x)", path, text, err, c.N, flagsSub))
+				}
+				if got, err := roman.DefaultParser(namedS(text), 0); err != nil || got != n {
+					w.Fail(c, "round-trip-differs", fmt.Sprintf("%s: DefaultParser[named string](%q) = %d, %v; want %d", path, text, uint64(got), err, c.N))
+				}
+				if got, err := roman.DefaultParser(namedB(w.Scratch(text)), 0); err != nil || got != n {
+					w.Fail(c, "round-trip-differs", fmt.Sprintf("%s: DefaultParser[named []byte](%q) = %d, %v; want %d", path, text, uint64(got), err, c.N))
+				}
 			}
 			parseString := func() {
 				got, err := roman.DefaultParser(text, 0)
@@ -141,6 +187,19 @@ func judge(c Case, w *vkit.W) {
 				w.Fail(c, "not-canonical", fmt.Sprintf("Sprintf(%q, %d) under DefaultFormat subset %#x = %q want %q", v.verb, c.N, c.Default, got, want))
 			}
 		}
+		// the same verbs reach the number inside containers and through the other print functions
+		wl := ref.RomanNumeral(c.N, refFlags(subLong|subLower))
+		for _, v := range []struct{ path, got, want string }{
+			{"Sprint", fmt.Sprint(n), wantDef}, {"Sprintln", fmt.Sprintln(n), wantDef + "\n"}, {"Sprintf(%+v)", fmt.Sprintf("%+v", n), wantDef},
+			{"Sprintf(%v) of a slice", fmt.Sprintf("%v", []roman.Number{n, n}), "[" + wantDef + " " + wantDef + "]"},
+			{"Sprintf(%l) of a slice", fmt.Sprintf(verbLower, []roman.Number{n}), "[" + wl + "]"},
+			{"Sprintf(%v) of a struct", fmt.Sprintf("%v", struct{ N roman.Number }{n}), "{" + wantDef + "}"},
+			{"Sprintf(%s) of an interface value", fmt.Sprintf("%s", any(n)), wantDef},
+		} {
+			if v.got != v.want {
+				w.Fail(c, "not-canonical", fmt.Sprintf("%s of %d under DefaultFormat subset %#x = %q want %q", v.path, c.N, c.Default, v.got, v.want))
+			}
+		}
 		w.RetainBytes(c, "MarshalText", b, wantDef)
 		roundTrip("MarshalText", string(b), c.Default)
 	case "failing-formatter": // replay of phase B2
@@ -163,6 +222,10 @@ func judge(c Case, w *vkit.W) {
 	}
 }
 
+var verbLower = "%l" // not a constant: go vet does not know the library's own verbs
+
+func fmtL(n roman.Number) string { return fmt.Sprintf("%l", n) }
+
 func configure(def, limit int) func() {
 	oldF, oldL := roman.DefaultFormat, roman.MaxInputLength
 	roman.DefaultFormat, roman.MaxInputLength = libFlags(def), limit
@@ -176,6 +239,9 @@ func nontrivial(n uint64, flags int) bool { return n > 0 && (flags != 0 || !suit
 func TestCheck(t *testing.T) {
 	r := vkit.Start("C02")
 	defer r.Finish(t)
+	if r.ReplayCold() {
+		return
+	}
 	if r.Replay != "" {
 		var c Case
 		if err := r.LoadReplay(&c); err != nil {
@@ -304,6 +370,45 @@ func TestCheck(t *testing.T) {
 			})
 			restore()
 		}
+	})
+
+	// Phase A3: numbers above 2^32 x 1000 (numerals of more than four million symbols), limit disabled.
+	r.Phase("A3: numbers whose thousands exceed 2^32 (4.3 MB numerals), limit disabled: formatter, Valid, parser, UnmarshalText", func() {
+		defer configure(0, 0)()
+		giants := []Case{{N: 4294968444, Flags: subLower, Path: "formatter"}}
+		if r.Thorough() {
+			giants = append(giants, Case{N: 4294967999, Flags: subLong, Path: "formatter"}, Case{N: 8589935000, Flags: 0, Path: "formatter"})
+		}
+		r.Parallel(int64(len(giants)), 1, func(w *vkit.W, lo, hi int64) {
+			for i := lo; i < hi; i++ {
+				judge(giants[i], w)
+				w.Eval(true)
+			}
+		})
+	})
+
+	r.Phase("B3: formatter and methods again right after custom package-level Formatter/Parser functions were installed, used and removed", func() {
+		for _, def := range []int{0, subLower, 0x15, subLong | subLower} {
+			restore := configure(def, 128)
+			r.Serial(func(w *vkit.W) {
+				for n := uint64(0); n < 130000; n += 997 {
+					for _, path := range []string{"methods", "formatter"} {
+						judge(Case{N: n, Flags: def, Default: def, Limit: 128, Path: path, Hooks: true}, w)
+						w.EvalRandom(vkit.HashU(n, uint64(def), uint64(len(path)), 77), n > 0)
+					}
+				}
+			})
+			restore()
+		}
+	})
+
+	r.Phase(fmt.Sprintf("D: %d cold-start scenarios (which roman call comes first in a fresh process)", len(coldScenarios)), func() {
+		r.Serial(func(w *vkit.W) {
+			for _, sc := range coldScenarios {
+				r.RunCold(w, sc, false)
+				w.EvalRandom(vkit.Hash64("cold", sc), true)
+			}
+		})
 	})
 
 	r.Phase("C: rapid (n, flags, DefaultFormat, limit)", func() {
